@@ -19,6 +19,8 @@ Three behaviours of the pinned tree are kept as variants (the model must agree w
              `.fixed`  — rate limit 429, body too large 413
   body     : `.declaredOnly`  — only Content-Length is checked, a chunked body is read in full
              `.readerWrapped` — r.Body is wrapped in http.MaxBytesReader(max)
+  guard    : `.proxyOnly` — the chain guards the catch-all / provider proxy routes only
+             `.proxyAndTranslator` — also the translator's messages route
 -/
 import Olla.Model.Bucket
 
@@ -31,11 +33,14 @@ inductive RefusalVariant | pinned | fixed
   deriving DecidableEq, Repr
 inductive BodyVariant | declaredOnly | readerWrapped
   deriving DecidableEq, Repr
+inductive GuardVariant | proxyOnly | proxyAndTranslator
+  deriving DecidableEq, Repr
 
 /-- The tree under verification (flip when fixes/C17-*.patch are applied; see Props/C17.lean). -/
-def activeKey : KeyVariant := .remoteAddr
-def activeRefusal : RefusalVariant := .pinned
-def activeBody : BodyVariant := .declaredOnly
+def activeKey : KeyVariant := .clientIP
+def activeRefusal : RefusalVariant := .fixed
+def activeBody : BodyVariant := .readerWrapped
+def activeGuard : GuardVariant := .proxyAndTranslator
 
 /-! ### Rate limiting -/
 
@@ -148,10 +153,19 @@ def obsOfIP (ip : String) (l : List (WReq × Bool)) : List Obs :=
 inductive Route | proxy | translator | internal
   deriving DecidableEq, Repr
 
-/-- WireUpWithSecurityChain: the chain is mounted on `IsProxy` routes only. -/
-def chainMounted : Route → Bool
+/-- WireUpWithSecurityChain: the chain is mounted on `IsProxy` routes only. In the pinned tree the
+    translator route (/olla/anthropic/v1/messages) is registered as a plain route although it forwards
+    requests to a backend; `.proxyAndTranslator`: it is registered as a guarded route. -/
+def chainMounted : GuardVariant → Route → Bool
+  | _, .proxy => true
+  | .proxyAndTranslator, .translator => true
+  | _, _ => false
+
+/-- Routes through which client requests reach a backend. -/
+def forwards : Route → Bool
   | .proxy => true
-  | _ => false
+  | .translator => true
+  | .internal => false
 
 /-! ### Body size -/
 
